@@ -160,6 +160,11 @@ class RecClient:
     async def report(self, tag, description, pages):
         self.reports.append((tag, str(description)))
 
+    def __getattr__(self, name):
+        async def noop(*a, **kw):
+            return None
+        return noop
+
 
 def make_reporter():
     from stepup.core.reporter import ReporterClient
@@ -470,3 +475,271 @@ def run(coro, timeout=600):
     async def guarded():
         return await asyncio.wait_for(coro, timeout)
     return asyncio.run(guarded())
+
+
+# ---------------------------------------------------------------------------------------------
+# Disk scenarios: a project on a real temporary tree, user edits, the real Builder.finalize
+# ---------------------------------------------------------------------------------------------
+
+EDITS = ["overwrite", "rewrite-same", "to-dir", "to-dir-nonempty", "delete", "neighbour", "adopt-static", "none", "none"]
+
+
+def user_edits(b, rng, made):
+    """Apply user edits to files StepUp wrote.  Returns {path: edit}."""
+    from stepup.core.enums import HashUpdateCause
+    from stepup.core.file import File
+    edits = {}
+    for p in sorted(b.written):
+        e = rng.choice(EDITS) if rng.random() < 0.5 else "none"
+        path = Path(p)
+        if e == "none" or not path.is_file():
+            continue
+        if e == "overwrite":
+            path.write_text("user data, longer than before: " + p * 2)
+        elif e == "rewrite-same":
+            content = path.read_text()
+            path.remove()
+            path.write_text(content)
+        elif e == "to-dir":
+            path.remove()
+            path.mkdir()
+        elif e == "to-dir-nonempty":
+            path.remove()
+            path.mkdir()
+            (path / "keep.txt").write_text("user file")
+        elif e == "delete":
+            path.remove()
+        elif e == "neighbour":
+            (path.parent / f"user{len(edits)}.dat").write_text("user neighbour")
+        elif e == "adopt-static":
+            f, det = b.wf.find_and_detached(File, p)
+            if f is None or not det:
+                continue
+            path.write_text("adopted by the user " + p)
+
+            def go(p=p):
+                unconfirmed = b.wf.declare_static_files(b.w.plan, [p])
+                b.wf.update_file_hashes({q: b.hash_of(q) for q in unconfirmed}, cause=HashUpdateCause.CONFIRMED)
+            if not b.attempt(go, ["adopt-static", p]):
+                continue
+            b.statics.add(p)
+        edits[p] = e
+    b.log.append(["user-edits", edits])
+    return edits
+
+
+async def disk_case(rng, guard, hids, witness=None):
+    """One complete scenario on a real tree.  guard in {"none", "targets", "incomplete", "no-clean"}."""
+    from stepup.core.enums import FileState, StepState
+    from stepup.core.file import File
+    from stepup.core.hash import StepHash
+    from stepup.core.step import Step
+    wfkw = {"targets": frozenset({Path("o1.txt")})} if guard == "targets" else {}
+    res = {"guard": guard}
+    async with WF(**wfkw) as w:
+        Path("plan.py").write_text("#!/usr/bin/env python3\n")
+        async with w.db:
+            b = Builder(w, rng, disk=True)
+            if witness is not None:
+                made = witness(b)
+            else:
+                made = b.grow(rng.randint(2, 6))
+                b.complete_all(made)
+                b.drop_random(made)
+            edits = user_edits(b, rng, made)
+            # everything still attached must have run, otherwise the build is incomplete
+            leave_pending = guard == "incomplete"
+            skipped = False
+            for st in list(w.wf.nodes(Step)):
+                if st.label == "./plan.py":
+                    continue
+                if st.get_state() != StepState.SUCCEEDED:
+                    if leave_pending and not skipped:
+                        need = w.db.execute("SELECT need FROM step WHERE node = ?", (st.i,)).fetchone()[0]
+                        if need != 31:
+                            skipped = True
+                            continue
+                    b.complete(st)
+            w.plan.mark_completed(StepHash(b"plan", None, b"plan", None), False)
+        await update_meta(w)
+        async with w.db:
+            res["before_graph"] = dump_graph(w, hids)
+        res["before_fs"] = snapshot_fs(".", hids)
+        res["contents_before"] = {p: Path(p).read_text() for p, e in res["before_fs"].items() if e != "dir"}
+        client, reporter = make_reporter()
+        builder = make_builder(w, reporter, do_remove_outdated=(guard != "no-clean"))
+        err = None
+        try:
+            await builder.finalize()
+        except AssertionError as e:   # after_lost_product on a file/root
+            err = f"AssertionError: {e}"
+        res["error"] = err
+        res["returncode"] = int(builder.returncode.value) if builder.returncode is not None else 0
+        res["has_targets"] = bool(w.wf.targets) or bool(w.wf.target_dirs)
+        res["clean"] = guard != "no-clean"
+        res["events"] = client.reports
+        res["removed_events"] = [d for t, d in client.reports if t == "REMOVE"]
+        res["queue_left"] = {str(k): v for k, v in w.wf.to_be_deleted.items()}
+        async with w.db:
+            res["after_graph"] = dump_graph(w, hids)
+        res["after_fs"] = snapshot_fs(".", hids)
+        res["contents_after"] = {p: Path(p).read_text() for p, e in res["after_fs"].items() if e != "dir"}
+        res["ever_output"] = sorted(b.ever_output)
+        res["written"] = dict(b.written)
+        res["edits"] = edits
+        res["log"] = b.log
+    return res
+
+
+def guarded(res):
+    return res["has_targets"] or (res["returncode"] & ~8) != 0 or not res["clean"]
+
+
+def coq_ctx(res):
+    return f"(mkCtx {coq_bool(res['has_targets'])} {res['returncode']} {coq_bool(res['clean'])})"
+
+
+def finalize_check(res):
+    """Gallina bool: the model's finalize on (graph, tree) before equals what the real one left."""
+    g, f = coq_graph(res["before_graph"]), coq_fs(res["before_fs"])
+    files = [d for d in res["removed_events"] if res["before_fs"].get(d) != "dir"]
+    dirs = [d for d in res["removed_events"] if res["before_fs"].get(d) == "dir"]
+    return (f"let r := finalize {coq_ctx(res)} (init_state {g} {f}) in "
+            f"fs_match {coq_fs(res['after_fs'])} (s_fs r) && strs_eqb {coq_strs(files)} (s_files r) && "
+            f"strs_eqb {coq_strs(dirs)} (s_dirs r) && graph_match {coq_graph(res['after_graph'])} (s_g r) && "
+            f"Bool.eqb (s_err r) {coq_bool(res['error'] is not None)}")
+
+
+# ---------------------------------------------------------------------------------------------
+# Property oracles on the result of a real finalize (no model involved)
+# ---------------------------------------------------------------------------------------------
+
+STATIC_STATES = {12, 13, 14}
+OUTPUT_STATES = {15, 16, 17}
+VOLATILE = 18
+
+
+def _nodes_by_path(graph):
+    return {n["key"][1]: n for n in graph["nodes"] if n["key"][0] == KIND["file"]}
+
+
+def oracle_c06(res):
+    """Violations of C06 visible in one finalize: list of (signature, detail)."""
+    out = []
+    before, after = res["before_fs"], res["after_fs"]
+    files_before = _nodes_by_path(res["before_graph"])
+    removed = sorted(p for p in before if p not in after)
+    created = sorted(p for p in after if p not in before)
+    altered = sorted(p for p in before if p in after and before[p] != after[p])
+    altered += sorted(p for p in res["contents_before"] if p in res["contents_after"]
+                      and res["contents_before"][p] != res["contents_after"][p])
+    if created or altered:
+        out.append(("finalize:creates-or-alters-files", f"created {created} altered {altered}"))
+    if guarded(res):
+        if removed:
+            why = ("targets" if res["has_targets"] else
+                   "returncode" if (res["returncode"] & ~8) else "no-clean")
+            out.append((f"finalize:guard-ignored:{why}", f"guarded finalize (rc={res['returncode']}) removed {removed}"))
+        if res["queue_left"]:
+            out.append(("finalize:queue-left-after-guard", f"to_be_deleted not empty: {res['queue_left']}"))
+        return out
+    ever = set(res["ever_output"])
+    trees_after = [n["key"][1] for n in res["after_graph"]["nodes"] if n["key"][0] == KIND["st"] and not n["det"]]
+    for p in removed:
+        if before[p] == "dir":
+            inside = [t for t in trees_after if (p + "/").startswith(t)]
+            if inside:
+                out.append(("finalize:removed-dir:attached-static-tree",
+                            f"directory {p} is the root of / inside the attached static tree {inside[0]} and was removed"))
+            continue
+        node = files_before.get(p)
+        if p not in ever:
+            out.append(("finalize:removed-file:never-declared-output", f"{p} was removed; no step ever declared it"))
+            continue
+        if node is not None and not node["det"] and node["fstate"] in STATIC_STATES:
+            out.append(("finalize:removed-file:static", f"{p} is an attached static file and was removed"))
+            continue
+        if res["edits"].get(p) == "adopt-static":
+            out.append(("finalize:removed-file:adopted-static", f"{p} was adopted as static and removed"))
+            continue
+        if node is not None and node["fstate"] == VOLATILE:
+            continue
+        if res["contents_before"].get(p) != res["written"].get(p):
+            out.append(("finalize:removed-file:modified-output",
+                        f"{p} was modified by the user after StepUp recorded it and was removed"))
+    # a directory that is gone had nothing left in it by construction of the file system; what is
+    # checked here is that its former content was only legitimately removed files (done above) and
+    # that no user file vanished with it
+    if res["queue_left"]:
+        out.append(("finalize:queue-left", f"to_be_deleted not empty after cleanup: {res['queue_left']}"))
+    return out
+
+
+def _successors(graph):
+    succ = {}
+    for n in graph["nodes"]:
+        succ.setdefault(n["key"], set())
+        if n["creator"] is not None and n["creator"] != n["key"]:
+            succ.setdefault(n["creator"], set()).add(n["key"])
+    for a, b in graph["deps"]:
+        succ.setdefault(a, set()).add(b)
+    return succ
+
+
+def held_nodes(graph):
+    """Nodes from which an attached node or a cycle is reachable along product and sink edges
+    (search formulation, independent of the deletion loop)."""
+    succ = _successors(graph)
+    attached = {n["key"] for n in graph["nodes"] if not n["det"]}
+
+    def reach_from(srcs):
+        seen, todo = set(srcs), list(srcs)
+        while todo:
+            x = todo.pop()
+            for y in succ.get(x, ()):
+                if y not in seen:
+                    seen.add(y)
+                    todo.append(y)
+        return seen
+    on_cycle = {k for k in succ if k in reach_from(succ.get(k, ()))}
+    anchors = attached | on_cycle
+    return {k for k in succ if k in anchors or reach_from([k]) & anchors}
+
+
+def oracle_c07(res):
+    """Violations of C07 visible in one successful unrestricted finalize with cleaning."""
+    out = []
+    if guarded(res) or res["error"]:
+        return out
+    before, after = res["before_fs"], res["after_fs"]
+    g0 = res["before_graph"]
+    # the Workflow pre-step detaches unused files of attached trees; they are static, not outputs
+    held = held_nodes(g0)
+    after_keys = {n["key"] for n in res["after_graph"]["nodes"]}
+    after_nodes = _nodes_by_path(res["after_graph"])
+    optional = {n["key"] for n in g0["nodes"] if n["key"][0] == KIND["step"] and not n["det"] and n["need"] == 31}
+    reverted = {b for a, b in g0["deps"] if a in optional}
+    for n in g0["nodes"]:
+        if n["key"][0] != KIND["file"] or n["fstate"] not in (16, 17, 18):
+            continue
+        p = n["key"][1]
+        unmodified = (n["fstate"] == VOLATILE and before.get(p) not in (None, "dir")) or \
+                     (before.get(p) not in (None, "dir") and n["fhash"] is not None and before.get(p) == n["fhash"])
+        if n["det"] and n["key"] not in held:
+            if n["key"] in after_keys:
+                out.append(("finalize:orphan-node-kept", f"detached output {p} is held by nothing but is still in the graph"))
+            if unmodified and p in after:
+                out.append(("finalize:orphan-file-kept", f"unmodified output {p} of a dropped step is still on disk"))
+        elif n["key"] in reverted:
+            if unmodified and p in after:
+                out.append(("finalize:optional-output-kept", f"unmodified output {p} of an unneeded optional step is still on disk"))
+            an = after_nodes.get(p)
+            if an is not None and n["fstate"] != VOLATILE and an["fstate"] != 15:
+                out.append(("finalize:optional-output-not-reset", f"{p} is {an['fstate']} after revert"))
+    # emptied directories
+    removed_files = [p for p in before if before[p] != "dir" and p not in after]
+    for p in removed_files:
+        d = os.path.dirname(p)
+        if d and d in after and not any(q.startswith(d + "/") for q in after):
+            out.append(("finalize:empty-dir-kept", f"{d} became empty by removing {p} and is still there"))
+    return out
